@@ -3,13 +3,71 @@ import PytypeModel.Proofs.PyiTypesB
 /-! C05, types, part C: names and the simple constructors. -/
 namespace PytypeModel.Pytd
 
+/-- the parse-stage type does not look like `Final` / `TypeAlias` to `_ann_assign` -/
+def FinalOK (d : Defs) (pre : Ty) : Prop :=
+  tyName pre = "" ∨ (matchesName d (tyName pre) ["typing"] "Final" = false ∧
+    matchesName d (tyName pre) ["typing"] "TypeAlias" = false)
+
+/-- … and, if it is a bare name, `_maybe_resolve_alias` keeps an alias to it -/
+def AliasOK (pre : Ty) : Prop :=
+  ∀ n, pre = .named n → typingSets.contains n = false ∧ (comps n = [n] ∨ ∃ x, comps n = ["typing", x])
+
+def HeadOK (d : Defs) (pre : Ty) : Prop := FinalOK d pre ∧ AliasOK pre
+
 /-- what is proved for every fragment type: printing the normal form prints the same expression, with the
 same `typing` members, and parsing the printed expression gives the normal form after post-processing -/
 def TyGood (g : GCtx) (ip : Bool) (t : Ty) : Prop :=
   tyExpr ip (normTy g.tps ip t) = tyExpr ip t ∧
   (∀ X, X ∈ tyAdds ip (normTy g.tps ip t) ↔ X ∈ tyAdds ip t) ∧
   (∀ d, EnvOK g d (tyAdds ip t) →
-    ∃ pre, parseTy d (tyExpr ip t) = .ok pre ∧ postTy g.tps pre = normTy g.tps ip t)
+    ∃ pre, parseTy d (tyExpr ip t) = .ok pre ∧ postTy g.tps pre = normTy g.tps ip t ∧ HeadOK d pre)
+
+theorem headOK_single {g : GCtx} {d : Defs} {needs : List String} (h : EnvOK g d needs) {x : String}
+    (hx : comps x = [x]) (ha : g.aliasNames.contains x = false) (h1 : x ≠ "Final") (h2 : x ≠ "TypeAlias")
+    {pre : Ty} (hn : tyName pre = x) : HeadOK d pre := by
+  refine ⟨?_, ?_⟩
+  · right
+    rw [hn]
+    unfold matchesName matchesC
+    simp only [hx, resolveAlias_of_not_alias h ha]
+    simp [h1, h2]
+  · intro n hpn
+    subst hpn
+    simp only [tyName] at hn
+    subst hn
+    exact ⟨typingSets_single hx, Or.inl hx⟩
+
+theorem finalOK_typing {d : Defs} {n x : String} (hcn : comps n = ["typing", x]) (h1 : x ≠ "Final")
+    (h2 : x ≠ "TypeAlias") {pre : Ty} (hn : tyName pre = n) : FinalOK d pre := by
+  right
+  rw [hn]
+  unfold matchesName matchesC
+  simp only [hcn]
+  simp [h1, h2]
+
+/-- a bare `typing.x` name that is not one of the set types -/
+theorem headOK_typing {d : Defs} {n x : String} (hcn : comps n = ["typing", x]) (h1 : x ≠ "Final")
+    (h2 : x ≠ "TypeAlias") (h3 : x ≠ "Intersection") (h4 : x ≠ "Optional") (h5 : x ≠ "Union")
+    {pre : Ty} (hn : tyName pre = n) : HeadOK d pre := by
+  refine ⟨finalOK_typing hcn h1 h2 hn, ?_⟩
+  intro m hpn
+  subst hpn
+  simp only [tyName] at hn
+  subst hn
+  exact ⟨typingSets_typing hcn h3 h4 h5, Or.inr ⟨x, hcn⟩⟩
+
+/-- a subscripted `typing.x[...]` -/
+theorem headOK_typing_sub {d : Defs} {n x : String} (hcn : comps n = ["typing", x]) (h1 : x ≠ "Final")
+    (h2 : x ≠ "TypeAlias") {pre : Ty} (hn : tyName pre = n) (hnn : ∀ m, pre ≠ .named m) : HeadOK d pre :=
+  ⟨finalOK_typing hcn h1 h2 hn, fun m hm => absurd hm (hnn m)⟩
+
+theorem headOK_empty {d : Defs} {pre : Ty} (hn : tyName pre = "") : HeadOK d pre := by
+  refine ⟨Or.inl hn, ?_⟩
+  intro n hpn
+  subst hpn
+  simp only [tyName] at hn
+  subst hn
+  exact ⟨by decide, Or.inl (by decide)⟩
 
 theorem fSimple_facts {g : GCtx} {x : String} (h : fSimple g x = true) :
     reservedTypeNames.contains x = false ∧ g.adds.contains x = false ∧ g.aliasNames.contains x = false := by
@@ -69,11 +127,15 @@ theorem good_simple {g : GCtx} (hg : GOK g) (ip : Bool) {x : String} (hid : iden
     (hf : fSimple g x = true) :
     tyExpr ip (simpleNorm g.tps x) = simpleNameExpr x ∧ tyAdds ip (simpleNorm g.tps x) = [] ∧
     (∀ d needs, EnvOK g d needs →
-      ∃ pre, parseTy d (simpleNameExpr x) = .ok pre ∧ postTy g.tps pre = simpleNorm g.tps x) := by
+      ∃ pre, parseTy d (simpleNameExpr x) = .ok pre ∧ postTy g.tps pre = simpleNorm g.tps x ∧ HeadOK d pre) := by
   have hx := identOK_comps hid
   have hNone := identOK_ne_None hid
   obtain ⟨hres, hadds, halias⟩ := fSimple_facts hf
   have hnothing : x ≠ "nothing" := by
+    intro e; subst e; revert hres; decide
+  have hFinal : x ≠ "Final" := by
+    intro e; subst e; revert hres; decide
+  have hTA : x ≠ "TypeAlias" := by
     intro e; subst e; revert hres; decide
   by_cases hNT : x = "NoneType"
   · subst hNT
@@ -82,8 +144,8 @@ theorem good_simple {g : GCtx} (hg : GOK g) (ip : Bool) {x : String} (hid : iden
     refine ⟨?_, ?_, ?_⟩
     · rw [tyExpr_named]; decide
     · rw [tyAdds_named]; decide
-    · intro d needs _
-      refine ⟨.named "NoneType", ?_, ?_⟩
+    · intro d needs henv
+      refine ⟨.named "NoneType", ?_, ?_, headOK_single henv hx halias (by decide) (by decide) rfl⟩
       · have : simpleNameExpr "NoneType" = .none := by decide
         rw [this]; simp [parseTy]
       · rw [postTy_named, htp]
@@ -97,7 +159,7 @@ theorem good_simple {g : GCtx} (hg : GOK g) (ip : Bool) {x : String} (hid : iden
       · rw [tyExpr_typeParam, hexpr]
       · exact tyAdds_typeParam _ _ _
       · intro d needs henv
-        refine ⟨.named x, ?_, ?_⟩
+        refine ⟨.named x, ?_, ?_, headOK_single henv hx halias hFinal hTA rfl⟩
         · rw [hexpr, parseTy_name]
           exact newType_bare (resolveType_other henv hadds halias hnothing) (typingSets_single hx)
         · rw [postTy_named, if_pos ht]
@@ -107,7 +169,7 @@ theorem good_simple {g : GCtx} (hg : GOK g) (ip : Bool) {x : String} (hid : iden
       · rw [tyExpr_named, nameExpr_single hx]
       · rw [tyAdds_named, nameAdds_single hx]
       · intro d needs henv
-        refine ⟨.named x, ?_, ?_⟩
+        refine ⟨.named x, ?_, ?_, headOK_single henv hx halias hFinal hTA rfl⟩
         · rw [hexpr, parseTy_name]
           exact newType_bare (resolveType_other henv hadds halias hnothing) (typingSets_single hx)
         · rw [postTy_named, if_neg ht, convNamed_single hx hNone]
@@ -169,7 +231,7 @@ theorem good_name {g : GCtx} (hg : GOK g) (ip : Bool) {n : String} (hf : fName g
     tyExpr ip (normName g.tps n) = nameExpr n ∧
     (∀ X, X ∈ tyAdds ip (normName g.tps n) ↔ X ∈ nameAdds n) ∧
     (∀ d, EnvOK g d (nameAdds n) →
-      ∃ pre, parseTy d (nameExpr n) = .ok pre ∧ postTy g.tps pre = normName g.tps n) := by
+      ∃ pre, parseTy d (nameExpr n) = .ok pre ∧ postTy g.tps pre = normName g.tps n ∧ HeadOK d pre) := by
   unfold fName at hf
   simp only [Bool.and_eq_true] at hf
   obtain ⟨hm, hf⟩ := hf
@@ -197,7 +259,7 @@ theorem good_name {g : GCtx} (hg : GOK g) (ip : Bool) {n : String} (hf : fName g
     have hid := mName_typing hc hm
     obtain ⟨hn, hcn, hx⟩ := classify_typing hc
     have hb : typingBanned.contains x = false := by simpa using hf
-    obtain ⟨hlk, hAny, hOpt, hUn, hInt, hNT, hnothing, _, _, _, _⟩ := typingBanned_facts hb
+    obtain ⟨hlk, hAny, hOpt, hUn, hInt, hNT, hnothing, hFin, hTA, _, _⟩ := typingBanned_facts hb
     have hNone := identOK_ne_None hid
     have e1 : normName g.tps n = .named n := by unfold normName; rw [hc]
     have e2 : nameExpr n = .name x := by
@@ -208,7 +270,7 @@ theorem good_name {g : GCtx} (hg : GOK g) (ip : Bool) {n : String} (hf : fName g
     · rw [tyExpr_named, ← e2]
     · intro X; rw [tyAdds_named, e3]
     · intro d henv
-      refine ⟨.named n, ?_, ?_⟩
+      refine ⟨.named n, ?_, ?_, headOK_typing hcn hFin hTA hInt hOpt hUn rfl⟩
       · rw [parseTy_name]
         apply newType_bare
         · rw [resolveType_imp henv (by simp) hnothing, hn]
